@@ -2,6 +2,7 @@ package main
 
 import (
 	"context"
+	"errors"
 	"fmt"
 	"net/http"
 	"sync"
@@ -36,6 +37,13 @@ func (e *env) emit(format string, args ...any) {
 }
 
 // mockServer is a contract mock of an httpserver.Runner child.
+//
+// Contract (what the bundled httpserver.Runner does, and what ClusterGo.v assumes):
+//   - Run returns only after Stop() was called or its context was cancelled - or by itself when the
+//     director makes the server fail (exit);
+//   - IsRunning() is true only while Run has been called, has not returned and the context the server
+//     was given (factory context and Run context) is live;
+//   - a server that sees its context cancelled before any Stop() call logs CX:<inst>.
 type mockServer struct {
 	env      *env
 	inst     int
@@ -43,14 +51,26 @@ type mockServer struct {
 	cfg      int
 	ready    byte // 'r' ready, 'n' never ready, 'e' error state
 	slowStop bool
+	fctx     context.Context // the context the factory was given
 
 	release  chan struct{} // closed by the director to let a slow Stop return
 	relOnce  sync.Once
 	stopped  chan struct{}
 	stopOnce sync.Once
+	exit     chan struct{} // closed by the director: the server gives up by itself
+	exitOnce sync.Once
 	blocked  atomic.Bool
 	created  time.Time
 	polls    atomic.Int32 // IsRunning calls
+
+	// guarded by env.logMu (so that they change atomically with the token that reports them)
+	runCtx     context.Context
+	runCalled  bool
+	returned   bool
+	selfExited bool
+	stopCalled bool
+	sawReady   bool // IsRunning answered true at least once
+	deadPolls  int  // IsRunning answered false because the context was cancelled or Run had returned
 }
 
 func (m *mockServer) String() string { return fmt.Sprintf("mock[%d]", m.inst) }
@@ -59,12 +79,35 @@ func (m *mockServer) Run(ctx context.Context) error {
 	if m.env == nil {
 		return nil
 	}
-	m.env.emit("RC:%d", m.inst)
+	e := m.env
+	e.logMu.Lock()
+	m.runCtx, m.runCalled = ctx, true
+	e.rec.Emit("RC:%d", m.inst)
+	e.logMu.Unlock()
+	self := false
 	select {
 	case <-ctx.Done():
+		e.logMu.Lock()
+		if !m.stopCalled {
+			e.rec.Emit("CX:%d", m.inst) // context cancelled although nobody called Stop()
+		}
+		e.logMu.Unlock()
 	case <-m.stopped:
+	case <-m.exit:
+		self = true
 	}
-	m.env.emit("RX:%d", m.inst) // Run returned (the mock's own action; not part of the model)
+	e.logMu.Lock()
+	m.returned = true
+	if self {
+		m.selfExited = true
+		e.rec.Emit("XS:%d", m.inst) // Run returned by itself
+	} else {
+		e.rec.Emit("RX:%d", m.inst) // Run returned
+	}
+	e.logMu.Unlock()
+	if self {
+		return errors.New("mock server failed by itself")
+	}
 	return nil
 }
 
@@ -72,16 +115,22 @@ func (m *mockServer) Stop() {
 	if m.env == nil {
 		return
 	}
-	if m.ready == 'r' && m.polls.Load() == 0 && time.Since(m.created) >= m.env.deadline {
-		// a ready server that was never asked IsRunning() before the readiness deadline expired: the
-		// process was stalled for longer than the deadline; the scenario's timing assumption is void
-		m.env.emit("TIMING")
+	e := m.env
+	e.logMu.Lock()
+	if m.ready == 'r' && !m.sawReady && m.deadPolls == 0 && time.Since(m.created) >= e.deadline {
+		// a ready server that was never SEEN ready although nothing was wrong with it (it was not asked
+		// IsRunning() before the readiness deadline expired, or only before its goroutine had got as far
+		// as calling Run): the process was stalled for longer than the deadline; the scenario's timing
+		// assumption is void
+		e.rec.Emit("TIMING")
 	}
-	m.env.emit("SC:%d", m.inst)
+	m.stopCalled = true
+	e.rec.Emit("SC:%d", m.inst)
+	e.logMu.Unlock()
 	if m.slowStop {
-		m.env.mu.Lock()
-		rel := m.env.releaseAll
-		m.env.mu.Unlock()
+		e.mu.Lock()
+		rel := e.releaseAll
+		e.mu.Unlock()
 		if !rel {
 			m.blocked.Store(true)
 			<-m.release
@@ -89,14 +138,66 @@ func (m *mockServer) Stop() {
 		}
 	}
 	m.stopOnce.Do(func() { close(m.stopped) })
-	m.env.emit("ST:%d", m.inst)
+	e.emit("ST:%d", m.inst)
 }
 
 func (m *mockServer) doRelease() { m.relOnce.Do(func() { close(m.release) }) }
 
-func (m *mockServer) IsRunning() bool { m.polls.Add(1); return m.ready == 'r' }
+// doExit makes the server give up by itself; only for a server that has been seen ready, whose Run is
+// still running and that nobody is stopping.  Reports whether the server qualified.
+func (m *mockServer) doExit() bool {
+	e := m.env
+	e.logMu.Lock()
+	ok := m.ready == 'r' && m.sawReady && m.runCalled && !m.returned && !m.stopCalled
+	e.logMu.Unlock()
+	if ok {
+		m.exitOnce.Do(func() { close(m.exit) })
+	}
+	return ok
+}
+
+// alive: Run called, not returned, contexts live.  Caller holds env.logMu.
+func (m *mockServer) aliveLocked() (alive bool, dead bool) {
+	if (m.fctx != nil && m.fctx.Err() != nil) || (m.runCtx != nil && m.runCtx.Err() != nil) || m.returned {
+		return false, true
+	}
+	return m.runCalled, false
+}
+
+func (m *mockServer) IsRunning() bool {
+	m.polls.Add(1)
+	if m.env == nil {
+		return m.ready == 'r'
+	}
+	m.env.logMu.Lock()
+	defer m.env.logMu.Unlock()
+	alive, dead := m.aliveLocked()
+	if dead {
+		m.deadPolls++
+	}
+	if m.ready == 'r' && alive {
+		m.sawReady = true
+		return true
+	}
+	return false
+}
 
 func (m *mockServer) GetState() string {
+	if m.env != nil {
+		m.env.logMu.Lock()
+		defer m.env.logMu.Unlock()
+		switch {
+		case m.selfExited:
+			return "Error"
+		case m.returned:
+			return "Stopped"
+		case !m.runCalled:
+			if m.ready == 'e' {
+				return "Error"
+			}
+			return "Booting"
+		}
+	}
 	switch m.ready {
 	case 'r':
 		return "Running"
